@@ -3,12 +3,12 @@ CHECKS = {
   text=('Theorems over ALL decorator stacks (any depth and nesting order, the same metrics decorator any number of times), all batches, PublisherConfigs, answer scripts of the '
         'wrapped publisher, call sequences over re-published objects, emit/Ack/Nack/Close sequences and handler outcome sequences of a hand-written executable model of '
         'message/decorator.go, components/delay and components/metrics: one wrapped Publish call with the same objects in order or none on a delay rejection, errors and Close pass '
-        'through once, each transform once in order, settlement of the received object is the C03 machine of the wrapped object; delay precedence per branch, exactly one stamp with '
+        'through once, each transform once in order, settlement of the received object is the C03 machine of the wrapped object; delay precedence per branch, exactly one stamp (the Delay as built, independent of the clock at stamping time) with '
         'both keys from one Delay, For/Until agree with the clock, atomic batch, nothing published without a delay unless AllowNoDelay; exactly one publish observation per counted call, '
         'one counter increment per delivered and settled message with the winning label, one handler observation per invocation with errors and panics as failures. '
         'The subscriber and publisher acceptors the check evaluates are proved to accept every model run (list level: delivery order, trail per delivery, aggregated tables); Publish is also modelled in place on a heap (the same *Message several times in a batch) with a refinement theorem to the by-value model and transparency for arbitrary repetitions. Refuted with witnesses: handler panic and wrapped-publisher panic recorded as success (D11 and its publisher twin, both repaired by fix commits) and the handler middleware applied twice counting twice (known finding). '
         'Tied to the code on every run: random real decorator stacks around scripted publishers/subscribers, a private Prometheus registry gathered at quiescence, a real Router with '
-        'AddPrometheusRouterMetrics 1-3 times, concurrent publishes, delay constructors bracketed by clock readings; every snapshot compared with the model and judged by the proved acceptors.'),
+        'AddPrometheusRouterMetrics 1-3 times, concurrent publishes, Delay values built over a second before they are stamped, a wrapped subscriber that drains inside its own Close against a busy consumer, delay constructors bracketed by clock readings; every snapshot compared with the model and judged by the proved acceptors.'),
   note=('Trusted: Coq kernel + vm_compute; Prometheus as a log of label tuples, context marks as booleans, watcher goroutines firing on the first settlement, RFC 3339 / Duration string round trips; '
         'the Go harness and the two add-only export_verif.go files. Partial: for batches that repeat an object only the transparency acceptor is proved, counting and trail multiplicity are compared per case. '
         'Thorough tier adds a -race run (testing).'),
